@@ -7,6 +7,7 @@ CONSTANTS
   Kinds = {"xof", "xofa"}
   WithCopy = TRUE
   Duplex = FALSE
+  ChunkLens <- CopyChunks
   PermOp <- SPermOp
   BX <- SBX
   BC <- SBC
